@@ -222,6 +222,18 @@ def reader_rule(F, rep):
                 bad.append(tir.sp(x))
         rep.ob("reader.unknown-not-refused", not bad, peppifmt.READ, "loop", "the entry loop refuses an archive outside the arms of the entries it knows (%s): an unknown entry can make the reader fail instead of being ignored" % bad[:3],
                sample={"sites": bad})
+    # .. and the archive is opened over the caller's stream itself, which nothing has read before: a check on the raw bytes ahead of
+    # the tar parser (`expect_bytes(&mut r, SIGNATURE)` + `chain`) turns "peppi.json is first" from a promise of the writer into
+    # a demand of the reader, and an unknown entry in front is refused
+    rb_ = F.body(peppifmt.READ)
+    if rb_ is not None:
+        prm = [p for p in rb_["tir"]["params"] if p.get("k") == "Bind"]
+        sid = prm[0].get("id") if prm else None
+        opens = [x for x in tir.walk(rb_["tir"]["value"]) if x.get("k") == "Call" and "tar::Archive" in (declared(x) or "") and (declared(x) or "").endswith("::new")]
+        uses = [x for x in tir.walk(rb_["tir"]["value"]) if x.get("k") == "Path" and x.get("res") == "local" and x.get("id") == sid]
+        ok_open = len(opens) == 1 and len(opens[0].get("args", [])) == 1 and strip(opens[0]["args"][0]).get("k") == "Path" and strip(opens[0]["args"][0]).get("id") == sid
+        rep.ob("reader.archive-stream", ok_open and len(uses) == 1, peppifmt.READ, "archive",
+               "tar::Archive::new must be given the caller's stream itself and be its only use (%d uses, %d Archive::new calls): reading or wrapping the stream before the tar parser makes the reader depend on what the first entry is" % (len(uses), len(opens)))
     name_total_rule(F, rep, m, loop)
     fa = arms.get("frames.arrow")
     ok = fa is not None and any(x.get("k") == "Break" for x in tir.walk(fa["body"]))
